@@ -320,6 +320,15 @@ fn literals() -> Vec<(&'static str, Extensions, bool)> {
         ("@++ if you like", Extensions::COMPONENT_MODIFIERS, false),
         ("(as said @&(above) already)", Extensions::COMPONENT_MODIFIERS | Extensions::INTERMEDIATE_PREPARATIONS, false),
         ("#?? or ~&& nothing", Extensions::COMPONENT_MODIFIERS, false),
+        // a comment glued to a component: the text run between components holds nothing
+        ("@flour{1%kg}[- sifted -]@water{2%l}", none, false),
+        ("@salt{1%pinch}-- x", none, false),
+        ("[- c -]@eggs{3}", none, false),
+        ("#pan{}[- a -][- b -]~{5%min}", none, false),
+        // number, blank, word in cookware braces: text without ADVANCED_UNITS
+        ("#pan{2 large}", Extensions::ADVANCED_UNITS, false),
+        ("#trays{1 1/2 dozen}", Extensions::ADVANCED_UNITS, false),
+        ("~{2 eggs}", Extensions::ADVANCED_UNITS | Extensions::TIMER_REQUIRES_TIME, false),
         // a `>>` line is text when the document has a front matter; otherwise an entry (both are core)
         ("mix\n>> k: v\nserve", none, true),
     ]
